@@ -112,6 +112,10 @@ pub struct Case {
     /// means what it means where the process is when the name is used
     #[serde(default)]
     pub relative: Option<Option<u8>>,
+    /// before this roll (index) the roller is asked to roll something that is not there (kind 0: no file at the path) or
+    /// not a file (kind 1: a non-empty directory): whether it reports an error or shrugs, no archive may be lost over it
+    #[serde(default)]
+    pub futile_roll_before: Option<(u8, u8)>,
 }
 
 /// `\xHH` escapes in a generated name stand for raw bytes (file names that are not valid UTF-8)
@@ -163,9 +167,9 @@ pub fn strategy() -> impl Strategy<Value = Case> {
         prop::collection::vec((any::<u16>(), content()), 0..=3),
         prop::collection::vec(content(), 1..=10),
         any::<u16>(),
-        (prop::bool::weighted(0.2), prop::option::weighted(0.08, (any::<u64>(), 70_000u32..400_000)), prop::bool::weighted(0.3), prop_oneof![3 => Just(vec![]), 1 => prop::collection::vec(1u8..8, 1..=2)], prop::option::weighted(0.3, 1u8..6), prop::bool::weighted(0.2), prop::option::weighted(0.1, 33u32..=70), prop::bool::weighted(0.3), prop::option::weighted(0.15, prop::option::weighted(0.6, 1u8..6))),
+        (prop::bool::weighted(0.2), prop::option::weighted(0.08, (any::<u64>(), 70_000u32..400_000)), prop::bool::weighted(0.3), prop_oneof![3 => Just(vec![]), 1 => prop::collection::vec(1u8..8, 1..=2)], prop::option::weighted(0.3, 1u8..6), prop::bool::weighted(0.2), prop::option::weighted(0.1, 33u32..=70), prop::bool::weighted(0.3), prop::option::weighted(0.15, prop::option::weighted(0.6, 1u8..6)), prop::option::weighted(0.25, (0u8..6, 0u8..2))),
     )
-        .prop_map(|(delete_roller, count, base_kind, pat, init_kind, init, by, rolls, act, (cross_device, big, leftovers, wipe_before, env_switch_before, active_symlink, wide, lookalikes, relative))| {
+        .prop_map(|(delete_roller, count, base_kind, pat, init_kind, init, by, rolls, act, (cross_device, big, leftovers, wipe_before, env_switch_before, active_symlink, wide, lookalikes, relative, futile_roll_before))| {
             let count = wide.unwrap_or(count);
             let base: u32 = match base_kind {
                 0 => 0,
@@ -236,6 +240,7 @@ pub fn strategy() -> impl Strategy<Value = Case> {
                 wide,
                 lookalikes,
                 relative,
+                futile_roll_before,
             }
         })
 }
@@ -384,6 +389,65 @@ fn check_in(dir: &Path, case: &Case, obs: &mut Obs) -> CaseResult {
             if gone {
                 wiped = true;
                 exact = true; // an empty window is gap-free
+            }
+        }
+        if let (Some((k, kind)), false, false) = (case.futile_roll_before, case.delete_roller, cfg!(feature = "bg")) {
+            if k as usize % case.rolls.len() == ri && c >= 1 && alt.is_none() {
+                let _ = std::fs::remove_file(&active);
+                if kind % 2 == 1 {
+                    std::fs::create_dir_all(active.join("not-a-log-file")).unwrap();
+                    std::fs::write(active.join("not-a-log-file/x"), b"x").unwrap();
+                }
+                let window = |s: &Snap| -> Vec<(i64, Vec<u8>)> { (0..c).filter_map(|o| s.files.get(&name(o)).map(|b| (o, b.clone()))).collect() };
+                let before = snap_following_links(dir);
+                let r = catch(|| roller.roll(&active));
+                if let Err(p) = r {
+                    return fail("C07:panic", format!("asked to roll {} before roll #{}, the roller panicked: {}", if kind % 2 == 1 { "a directory" } else { "a file that is not there" }, ri, p));
+                }
+                let after = snap_following_links(dir);
+                let (wb, wa) = (window(&before), window(&after));
+                let lb: Vec<&Vec<u8>> = wb.iter().map(|x| &x.1).collect();
+                // (a compressing roller creates the new archive over the old base name before it reads the source: what it
+                // leaves there after failing is a leftover of the attempt; with a window of one the old archive is what a
+                // completed rotation would have replaced, and it is gone by then)
+                let compressing = case.pattern.ends_with(".gz") || case.pattern.ends_with(".zst");
+                let judge = |la: &[&Vec<u8>]| -> bool {
+                    let kept_all = la == &lb[..];
+                    // (a window with gaps: the shift may push the oldest out although there was room, as in the main oracle)
+                    let gaps = !wb.iter().enumerate().all(|(i, x)| x.0 == i as i64);
+                    let oldest_pushed_out = (c >= 2 || compressing) && (wb.len() as i64 == c || gaps) && !lb.is_empty() && la == &lb[..lb.len() - 1];
+                    kept_all || oldest_pushed_out
+                };
+                let la_all: Vec<&Vec<u8>> = wa.iter().map(|x| &x.1).collect();
+                let la_rest: Vec<&Vec<u8>> = wa.iter().skip(1).map(|x| &x.1).collect();
+                let leftover = !judge(&la_all) && compressing && wa.first().map_or(false, |x| x.0 == 0) && judge(&la_rest);
+                let (kept_all, oldest_pushed_out) = (judge(&la_all) || leftover, false);
+                ensure!(
+                    kept_all || oldest_pushed_out,
+                    "C07:archive-lost-over-a-futile-roll",
+                    "before roll #{} the roller was asked to roll {} (it answered {}): archives by index before {:?}, after {:?} - an archive was lost although nothing was rolled", ri, if kind % 2 == 1 { "a directory" } else { "a file that is not there" }, if matches!(r, Ok(Ok(()))) { "Ok" } else { "Err" }, wb.iter().map(|x| (x.0, x.1.len())).collect::<Vec<_>>(), wa.iter().map(|x| (x.0, x.1.len())).collect::<Vec<_>>()
+                );
+                for (f, b) in &before.files {
+                    if (0..c).any(|o| name(o) == *f) || f.starts_with(&format!("{}/", active_key)) || *f == active_key {
+                        continue;
+                    }
+                    ensure!(after.files.get(f) == Some(b), "C07:bystander-touched", "futile roll before roll #{}: file {:?} outside the window changed", ri, f);
+                }
+                // the path is cleared for the real roll; the window may have a gap at the base now
+                let _ = std::fs::remove_dir_all(&active);
+                if leftover {
+                    let _ = std::fs::remove_file(dir.join(name(0)));
+                }
+                for o in 0..c {
+                    // (a directory "rolled" into the window is not an archive of ours)
+                    let p = dir.join(name(o));
+                    if p.is_dir() {
+                        let _ = std::fs::remove_dir_all(&p);
+                    }
+                }
+                let offs: Vec<i64> = window(&snap_following_links(dir)).iter().map(|x| x.0).collect();
+                exact = offs.iter().enumerate().all(|(i, o)| *o == i as i64);
+                obs.class("futile-roll-attempt");
             }
         }
         if case.active_symlink {
@@ -574,7 +638,7 @@ pub fn run(run: &Run) {
         // one roller through 400 successive rolls (more than any 8-bit bookkeeping can count)
         for (count, pattern) in [(3u32, "a.{}.log"), (5, "arch/{}/a.log.gz")] {
             let rolls: Vec<Vec<u8>> = (0..400u32).map(|i| format!("roll {}\n", i).into_bytes()).collect();
-            run.eval_one("rolls", &Case { delete_roller: false, base: 1, count, pattern: pattern.to_string(), initial: vec![], bystanders: vec![("other.txt".into(), b"keep".to_vec())], bystander_dirs: vec![], active: "active.log".into(), rolls, cross_device: false, big: None, leftovers: false, wipe_before: vec![120, 250], env_switch_before: None, active_symlink: false, wide: None, lookalikes: false, relative: None }, &f);
+            run.eval_one("rolls", &Case { delete_roller: false, base: 1, count, pattern: pattern.to_string(), initial: vec![], bystanders: vec![("other.txt".into(), b"keep".to_vec())], bystander_dirs: vec![], active: "active.log".into(), rolls, cross_device: false, big: None, leftovers: false, wipe_before: vec![120, 250], env_switch_before: None, active_symlink: false, wide: None, lookalikes: false, relative: None, futile_roll_before: None }, &f);
         }
     }
     run.note(format!("build: {}", if cfg!(feature = "bg") { "background_rotation" } else { "foreground rotation" }));
